@@ -255,7 +255,10 @@ def case_clone(case):
         space, kind, num, field, o = all_objects(address)[case["i"]]
         bits, shift = (16, 9) if space == "gear" else (24, 17)
     where = "%s(%r)" % (kind, num)
-    for how, fn in (("copy.copy", copy.copy), ("copy.deepcopy", copy.deepcopy), ("pickle round trip", lambda x: pickle.loads(pickle.dumps(x)))):
+    hows = [("copy.copy", copy.copy), ("copy.deepcopy", copy.deepcopy)] + \
+           [("pickle protocol %d round trip" % pr, lambda x, pr=pr: pickle.loads(pickle.dumps(x, protocol=pr)))
+            for pr in range(pickle.HIGHEST_PROTOCOL + 1)]
+    for how, fn in hows:
         try:
             c = fn(o)
             f1, f2 = frame.ForwardFrame(bits, 0), frame.ForwardFrame(bits, 0)
